@@ -7,9 +7,7 @@ import (
 
 // notApplicable: properties not claimed, with the reason. Pending entries are
 // removed as their rules are built.
-var notApplicable = map[string]string{
-	"C15": "quantifies over runtime tree shapes and level arithmetic (every node at depth a..b exactly once, in pre-order); no clause of it is a shape of the code that is not already claimed under C07/C09; static analysis cannot decide it (DESIGN §6)",
-}
+var notApplicable = map[string]string{}
 
 var allProps = []string{"C01", "C02", "C03", "C04", "C05", "C06", "C07", "C08", "C09", "C10", "C11", "C12", "C13", "C14", "C15", "C16", "C17", "C18", "C19", "C20"}
 
